@@ -618,6 +618,13 @@ func (x *c11) connUsesIn(fn *ssa.Function, wrapper bool, depth int) []c11Use {
 					case "ReadAtLeast":
 						uses = append(uses, c11Use{call: y, kind: "readatleast", buf: cc.Args[1]})
 						continue
+					case "LimitReader":
+						// io.ReadAll(io.LimitReader(conn, n)): at most n bytes, fewer at an early
+						// end of stream WITHOUT an error; complete only where len(result) is tested
+						if ra := c11OnlyReadAll(y); ra != nil {
+							uses = append(uses, c11Use{call: ra, kind: "readalllimit", alloc: true, size: c11StripConv(cc.Args[1]), buf: c11Result0(ra), desc: "io.ReadAll(io.LimitReader(conn, n))"})
+							continue
+						}
 					}
 				}
 				if fnc := cc.StaticCallee(); fnc != nil && !cc.IsInvoke() {
@@ -1417,7 +1424,7 @@ func (x *c11) receiveIn(fn *ssa.Function, fname, pos string, outer *c11Outer) {
 	var other []string
 	for _, u := range uses {
 		switch u.kind {
-		case "readfull", "readatleast", "read":
+		case "readfull", "readatleast", "read", "readalllimit":
 			reads = append(reads, u)
 		case "write":
 			other = append(other, "connection is written in Receive")
@@ -1508,11 +1515,27 @@ func (x *c11) receiveIn(fn *ssa.Function, fname, pos string, outer *c11Outer) {
 			} else {
 				r.Undecided(c11R3, ck, upos, "io.ReadAtLeast with a minimum that is not len(buf) of the same buffer")
 			}
+		case "readalllimit":
+			// decided below: the length test is this read's success edge
 		default:
 			r.Fail(c11R3, ck, upos, fmt.Sprintf("the %s is read with a bare conn.Read, which may return after any prefix of the requested bytes (TCP segmentation): a partial frame is returned as if complete", role[i]))
 		}
 		succ[i], fail[i], errV[i] = c11ErrEdges(u.call)
 		ce := fmt.Sprintf("%s: error of the %s read is tested", fname, role[i])
+		if u.kind == "readalllimit" {
+			ls, lf := c11LenEdges(fn, u.buf, u.size)
+			errV[i] = nil
+			if len(ls) > 0 {
+				succ[i], fail[i] = ls, lf
+				r.OK(c11R3, ck, upos, "io.ReadAll(io.LimitReader(conn, n)) followed by a test len(result) against n: the edge on which all n bytes arrived is this read's success edge")
+				r.OK(c11R3, ce, upos, "a short read is detected by the length test (ReadAll reports no error at an early end of stream)")
+			} else {
+				succ[i], fail[i] = nil, nil
+				r.Fail(c11R3, ck, upos, fmt.Sprintf("the %s is read with io.ReadAll(io.LimitReader(conn, n)) and len(result) is never compared with n: ReadAll returns a nil error when the stream ends early, so a partial frame is returned as if complete", role[i]))
+				r.OK(c11R3, ce, upos, "see the completeness clause of this read")
+			}
+			continue
+		}
 		if len(succ[i]) > 0 {
 			r.OK(c11R3, ce, upos, "err != nil / err == nil branch found; success edge identified")
 		} else if errV[i] != nil && c11OnlyReturned(errV[i]) {
@@ -1958,4 +1981,103 @@ func (x *c11) arithAdjusted(root *lanes.Frame, v ssa.Value) (string, bool) {
 		}
 	}
 	return "", false
+}
+
+func c11StripConv(v ssa.Value) ssa.Value {
+	for {
+		switch x := v.(type) {
+		case *ssa.Convert:
+			v = x.X
+		case *ssa.ChangeType:
+			v = x.X
+		default:
+			return v
+		}
+	}
+}
+
+// c11OnlyReadAll: the reader returned by call is used by exactly one
+// io.ReadAll and nothing else.
+func c11OnlyReadAll(call ssa.CallInstruction) ssa.CallInstruction {
+	v := call.Value()
+	if v == nil || v.Referrers() == nil {
+		return nil
+	}
+	var ra ssa.CallInstruction
+	for _, r := range *v.Referrers() {
+		switch y := r.(type) {
+		case *ssa.DebugRef:
+		case ssa.CallInstruction:
+			f := y.Common().StaticCallee()
+			if f == nil || f.Pkg == nil || f.Pkg.Pkg.Path() != "io" || f.Name() != "ReadAll" || ra != nil {
+				return nil
+			}
+			ra = y
+		default:
+			return nil
+		}
+	}
+	return ra
+}
+
+// c11LenEdges: the successors of tests that compare len(buf) with size (or a
+// conversion of it) on which len(buf) >= size holds (succ) / fails (fail).
+func c11LenEdges(fn *ssa.Function, buf, size ssa.Value) (succ, fail []*ssa.BasicBlock) {
+	if buf == nil || size == nil {
+		return nil, nil
+	}
+	isLen := func(v ssa.Value) bool {
+		c, ok := c11StripConv(v).(*ssa.Call)
+		if !ok {
+			return false
+		}
+		b, isB := c.Common().Value.(*ssa.Builtin)
+		return isB && b.Name() == "len" && len(c.Common().Args) == 1 && c.Common().Args[0] == buf
+	}
+	isSize := func(v ssa.Value) bool { return c11StripConv(v) == size }
+	for _, b := range fn.Blocks {
+		iff, ok := b.Instrs[len(b.Instrs)-1].(*ssa.If)
+		if !ok || len(b.Succs) != 2 || b.Succs[0] == b.Succs[1] {
+			continue
+		}
+		bo, ok := iff.Cond.(*ssa.BinOp)
+		if !ok {
+			continue
+		}
+		op := bo.Op
+		switch {
+		case isLen(bo.X) && isSize(bo.Y):
+		case isLen(bo.Y) && isSize(bo.X):
+			// size OP len  ==  len OP' size
+			switch op {
+			case token.LSS:
+				op = token.GTR
+			case token.GTR:
+				op = token.LSS
+			case token.LEQ:
+				op = token.GEQ
+			case token.GEQ:
+				op = token.LEQ
+			}
+		default:
+			continue
+		}
+		// the LimitReader bounds len <= size, so len >= size and len == size coincide
+		var okEdge, badEdge *ssa.BasicBlock
+		switch op {
+		case token.LSS, token.NEQ: // len < size / len != size: true = short
+			okEdge, badEdge = b.Succs[1], b.Succs[0]
+		case token.GEQ, token.EQL:
+			okEdge, badEdge = b.Succs[0], b.Succs[1]
+		default:
+			continue
+		}
+		if len(okEdge.Preds) == 1 {
+			succ = append(succ, okEdge)
+		}
+		if len(badEdge.Preds) == 1 {
+			fail = append(fail, badEdge)
+		}
+	}
+	return succ, fail
 }
